@@ -422,7 +422,14 @@ def check(pid, conf, tier, seed, workdir, replay, t0):
         else:
             what = {}
             if not proof_ok:
-                what["theorem_no_longer_checks"] = failing_obligation(coq_log) if not bad_axioms else {"unexpected_axioms": bad_axioms}
+                if forbidden:
+                    what["theorem_no_longer_checks"] = {"forbidden_vernacular": forbidden[:20]}
+                elif bad_axioms:
+                    what["theorem_no_longer_checks"] = {"unexpected_axioms": bad_axioms}
+                elif coqchk_summary and "coqchk" in " ".join(notes):
+                    what["theorem_no_longer_checks"] = {"coqchk": coqchk_summary[:800]}
+                else:
+                    what["theorem_no_longer_checks"] = failing_obligation(coq_log)
                 what["props_file"] = "coq/props/%s.v" % pid
             if corr_broken:
                 if judged and res["bad_corr"]:
